@@ -662,6 +662,35 @@ mut("own-atomicrc-drop-double", "break", ["C04", "C01"], "AtomicRc::drop release
             if let Some(cnt) = ptr.as_mut() {
                 RcInner::decrement_strong(cnt, 2, None);""")], ["OWN-BALANCE"])
 
+# ---------------------------------------------------------------- thin wrappers trusted by name
+COLF = "src/ebr_impl/collector.rs"
+mut("wrap-alloc-no-implicit-weak", "break", ["C03", "C04", "C01"], "alloc starts without the implicit weak share",
+    [ed(U, "state: AtomicU64::new((init_strong as u64) * COUNT + WEAK_COUNT),", "state: AtomicU64::new((init_strong as u64) * COUNT),")],
+    ["CW-ALLOC-INIT"])
+mut("wrap-rawatomic-cas-swapped", "break", ["C17", "C18"], "RawAtomic::compare_exchange swaps current/new",
+    [ed(PT, """        self.inner
+            .compare_exchange(current.inner, new.inner, success, failure)
+            .map(RawShared::from)""", """        self.inner
+            .compare_exchange(new.inner, current.inner, success, failure)
+            .map(RawShared::from)""")], ["WRAP-ATOMICS"])
+mut("wrap-atomicepoch-cas-always-ok", "break", ["C13", "C14"], "AtomicEpoch::compare_exchange reports Ok on failure",
+    [ed(EPF, "Err(data) => Err(Epoch { data }),", "Err(data) => Ok(Epoch { data }),")], ["WRAP-ATOMICS"])
+mut("wrap-defer-none-runs-now", "break", ["C01", "C02", "C13"], "Option<&Guard>::defer_with_inner runs f at once when no guard is given",
+    [ed(U, """        } else {
+            cs().defer_with_inner(ptr, f)
+        }""", """        } else {
+            f(ptr)
+        }""")], ["CW-DEFER-WRAPPER"])
+mut("wrap-global-epoch-other-collector", "break", ["C02", "C13"], "global_epoch() reads a fresh collector's clock",
+    [ed(DF, "default_collector().global_epoch().value()", "Collector::new().global_epoch().value()")], ["EBR-DEFAULT-COLLECTOR"])
+mut("wrap-element-of-offset", "break", ["C18"], "element_of adds the offset instead of subtracting it",
+    [ed(I, "let local_ptr = (entry as *const Entry as usize - offset_of!(Local, entry)) as *const Local;",
+        "let local_ptr = (entry as *const Entry as usize + offset_of!(Local, entry)) as *const Local;")], ["WRAP-ATOMICS"])
+mut("wrap-handle-drop-noop", "break", ["C20", "C15"], "LocalHandle::drop does not release the handle",
+    [ed(COLF, """        unsafe {
+            Local::release_handle(&*self.local);
+        }""", """        let _ = self.local;""")], ["EBR-DEFAULT-COLLECTOR"])
+
 # ---------------------------------------------------------------- bits / arithmetic
 mut("bit-low-bits-off-by-one", "break", ["C11"], "low_bits mask one bit too wide",
     [ed(PT, "(1 << align_of::<T>().trailing_zeros()) - 1", "(2 << align_of::<T>().trailing_zeros()) - 1")], ["BIT-TAGGED"])
